@@ -57,6 +57,9 @@ class OutputSuppressionContext:
         self._saved_fds: dict[int, int] = {}
         # The logging threshold as it was when the context was entered.
         self._saved_logging_disable: int | None = None
+        # The level of the root logger and the standard input stream, likewise.
+        self._saved_root_level: int | None = None
+        self._saved_stdin: object | None = None
 
     def restore(self) -> None:
         """Restore stdout and stderr at both Python and OS level."""
@@ -74,8 +77,12 @@ class OutputSuppressionContext:
             self._saved_fds.clear()
             sys.stdout = sys.__stdout__
             sys.stderr = sys.__stderr__
+            if self._saved_stdin is not None:
+                sys.stdin = self._saved_stdin  # type: ignore[assignment]
             if self._saved_logging_disable is not None:
                 logging.disable(self._saved_logging_disable)
+            if self._saved_root_level is not None:
+                logging.root.setLevel(self._saved_root_level)
 
     def __enter__(self) -> None:
         # Save OS-level fds before the SUT has a chance to close them.
@@ -83,7 +90,14 @@ class OutputSuppressionContext:
             with contextlib.suppress(OSError):
                 self._saved_fds[fd] = os.dup(fd)
         self._saved_logging_disable = logging.root.manager.disable
-        if self._null_file.closed:
+        self._saved_root_level = logging.root.level
+        self._saved_stdin = sys.stdin
+        try:
+            unusable = self._null_file.closed
+        except ValueError:
+            # A previously executed test case detached the shared sink (sys.stdout.detach()).
+            unusable = True
+        if unusable:
             # A previously executed test case closed the shared sink (sys.stdout.close()).
             OutputSuppressionContext._null_file = open(os.devnull, mode="w")  # noqa: PLW1514, PTH123, SIM115
         sys.stdout = self._null_file
